@@ -79,13 +79,17 @@ CoreNullable(S, f) ==
   ELSE << ErrCells("SERIES_CONTAINS_NULLS", -1,
                    SetToSortedSeq({ i \in 1..Len(f.cells) : IsNull(f.cells[i]) }), f.cells) >>
 
-(* PINNED: null members of a duplicated group are not listed as failure     *)
-(* cases (reshape_failure_cases drops them) although they make the check fail *)
-CoreUnique(S, f) ==
+(* Ideal: every reported member of a duplicated group is named.               *)
+(* Deviation DuplicateNullsNotReported (as shipped): null members are dropped  *)
+(* from the failure cases (reshape_failure_cases) although they make the check *)
+(* fail -- so they are neither reported nor removed by drop_invalid_rows.      *)
+CoreUniqueWith(S, f, dropNulls) ==
   IF UniqueOK(S, f) THEN <<>>
   ELSE << ErrCells("SERIES_CONTAINS_DUPLICATES", -1,
-                   SetToSortedSeq({ i \in DupReported(S.report, f.cells) : ~IsNull(f.cells[i]) }),
+                   SetToSortedSeq({ i \in DupReported(S.report, f.cells) : ~(dropNulls /\ IsNull(f.cells[i])) }),
                    f.cells) >>
+CoreUnique(S, f) == CoreUniqueWith(S, f, TRUE)
+CoreUniqueIdeal(S, f) == CoreUniqueWith(S, f, FALSE)
 
 CoreDtype(S, f) ==
   IF DtypeOK(S.dtype, f) THEN <<>>
@@ -110,6 +114,10 @@ CoreChecksFrom(S, f, k) ==
 (* all errors of a field in the order the code produces them *)
 FieldErrors(S, f) ==
   CoreName(S, f) \o CoreNullable(S, f) \o CoreUnique(S, f) \o CoreDtype(S, f)
+    \o CoreChecksFrom(S, f, 1)
+
+FieldErrorsIdeal(S, f) ==
+  CoreName(S, f) \o CoreNullable(S, f) \o CoreUniqueIdeal(S, f) \o CoreDtype(S, f)
     \o CoreChecksFrom(S, f, 1)
 
 (* warnings emitted: indexes of raise_warning checks that would have failed *)
